@@ -89,9 +89,34 @@ func loadState(db dbm.DB, key []byte) *State {
 	if *err != nil {
 		gcmn.Exit(gcmn.Fmt("Data has been corrupted or its spec has changed: %v\n", *err))
 	}
-	// TODO: ensure that buf is completely read.
+	// The proposer of s.Validators follows the wire encoding of the state (see persistBytes); a
+	// record written by an older version has no such trailer and keeps the old behaviour.
+	if r.Len() > 0 && s.Validators != nil {
+		n2, err2 := new(int), new(error)
+		if address := wire.ReadByteSlice(r, 0, n2, err2); *err2 == nil && len(address) > 0 {
+			s.Validators.SetProposer(address)
+		}
+	}
 
 	return s
+}
+
+// persistBytes is Bytes() followed by the address of the current proposer. ValidatorSet caches
+// its proposer in an unexported field, which the wire encoding drops; without it a restarted node
+// names another round-0 proposer for its first height than the nodes that kept running, rejects
+// their proposal and, when replaying its WAL, forgets the lock it took on it. Readers of the old
+// format ignore the trailing bytes.
+func (s *State) persistBytes() []byte {
+	bs := s.Bytes()
+	if s.Validators == nil || s.Validators.Size() == 0 {
+		return bs
+	}
+	buf, n, err := new(bytes.Buffer), new(int), new(error)
+	wire.WriteByteSlice(s.Validators.Proposer().Address, buf, n, err)
+	if *err != nil {
+		gcmn.PanicCrisis(*err)
+	}
+	return append(bs, buf.Bytes()...)
 }
 
 func (s *State) Copy() *State {
@@ -124,19 +149,19 @@ func StateDB(config *viper.Viper) dbm.DB {
 func (s *State) Save() {
 	s.mtx.Lock()
 	defer s.mtx.Unlock()
-	s.db.SetSync(stateKey, s.Bytes())
+	s.db.SetSync(stateKey, s.persistBytes())
 }
 
 func (s *State) SaveToKey(key []byte) {
 	s.mtx.Lock()
 	defer s.mtx.Unlock()
-	s.db.SetSync(key, s.Bytes())
+	s.db.SetSync(key, s.persistBytes())
 }
 
 func (s *State) SaveIntermediate() {
 	s.mtx.Lock()
 	defer s.mtx.Unlock()
-	s.db.SetSync(stateIntermediateKey, s.Bytes())
+	s.db.SetSync(stateIntermediateKey, s.persistBytes())
 }
 
 // Load the intermediate state into the current state
